@@ -1494,6 +1494,85 @@ def _compact(ctx: Ctx) -> None:
            construct="compact constructor binding")
 
 
+def _two_rounds(repo: Any, fi: FuncInfo, loop: ast.For) -> list[str] | None:
+    """What `for v in seq: <writes>` writes in its first two rounds: a list
+    of "V1" / "V2" (str of the round's element) and constant strings (empty
+    ones dropped); None if the body is not made of writes, flag / string
+    assignments and tests of such flags."""
+    from sa.srcmodel import inline_locals
+    if not isinstance(loop.target, ast.Name):
+        return None
+    var = loop.target.id
+    # flags / strings known before the loop
+    state: dict[str, Any] = {}
+    for st in ast.walk(fi.node):
+        if isinstance(st, (ast.Assign, ast.AnnAssign)) and getattr(
+                st, "value", None) is not None and st.lineno < loop.lineno:
+            tg = st.targets[0] if isinstance(st, ast.Assign) else st.target
+            if isinstance(tg, ast.Name):
+                c = repo.const(fi.module, st.value)
+                if isinstance(c, (str, bool)):
+                    state[tg.id] = c
+    out: list[str] = []
+
+    def val(e: ast.expr, rnd: int) -> Any:
+        if isinstance(e, ast.Name) and e.id in state:
+            return state[e.id]
+        if isinstance(e, ast.Call) and isinstance(
+                e.func, ast.Name) and e.func.id == "str" and len(
+                e.args) == 1 and isinstance(
+                e.args[0], ast.Name) and e.args[0].id == var:
+            return ("V", rnd)
+        c = repo.const(fi.module, e)
+        if isinstance(c, (str, bool)):
+            return c
+        if isinstance(e, ast.UnaryOp) and isinstance(e.op, ast.Not):
+            v = val(e.operand, rnd)
+            return (not v) if isinstance(v, bool) else None
+        return None
+
+    def run(stmts: list[ast.stmt], rnd: int) -> bool:
+        for st in stmts:
+            if isinstance(st, ast.If):
+                c = val(st.test, rnd)
+                if not isinstance(c, bool):
+                    return False
+                if not run(st.body if c else st.orelse, rnd):
+                    return False
+            elif isinstance(st, (ast.Assign, ast.AnnAssign)) and getattr(
+                    st, "value", None) is not None:
+                tg = st.targets[0] if isinstance(st, ast.Assign) \
+                    else st.target
+                v = val(st.value, rnd)
+                if not isinstance(tg, ast.Name) or not isinstance(
+                        v, (str, bool)):
+                    return False
+                state[tg.id] = v
+            elif isinstance(st, ast.Expr) and isinstance(
+                    st.value, ast.Call) and isinstance(
+                    st.value.func, ast.Attribute) and \
+                    st.value.func.attr == "write" and len(
+                    st.value.args) == 1:
+                v = val(st.value.args[0], rnd)
+                if isinstance(v, tuple):
+                    out.append(f"V{v[1]}")
+                elif isinstance(v, str):
+                    if v:
+                        out.append(v)
+                else:
+                    return False
+            elif isinstance(st, ast.Pass):
+                continue
+            else:
+                return False
+        return True
+    del inline_locals
+    for rnd in (1, 2):
+        if not run(loop.body, rnd):
+            return None
+    return out
+
+
 # ------------------------------------------------------------------ D19.3
 def _first_line_forms(ctx: Ctx) -> None:
     repo = ctx.repo
@@ -1535,6 +1614,19 @@ def _first_line_forms(ctx: Ctx) -> None:
         k = blk.index(first_loop)
         after = blk[k + 1] if k + 1 < len(blk) else None
     ok_nl = after is not None and "write('\\n" in ast.unparse(after)
+    if not ok_w and first_loop is not None and ast.unparse(
+            first_loop.iter) == "self.flatten()" and isinstance(
+            csv_val, str):
+        # any other way of putting separators between the values: execute
+        # two rounds of the loop abstractly and look at what is written
+        toks = _two_rounds(repo, gp, first_loop)
+        ok_w = toks == ["V1", csv_val, "V2"]
+    if not (ok_w and ok_nl) and after is not None:
+        nl_txt = repo.const(gp.module, _inl(gp.node, after.value.args[0])) \
+            if isinstance(after, ast.Expr) and isinstance(
+                after.value, ast.Call) and after.value.args else None
+        if isinstance(nl_txt, str) and nl_txt.startswith("\n"):
+            ok_nl = True
     if not (ok_w and ok_nl):
         # the other idiom: write(CSV_SEPARATOR.join(str(k) for k in
         # self.flatten())) as the very first write, then a line break
@@ -1708,9 +1800,26 @@ def _parses_into_fresh(fi: FuncInfo) -> bool:
                     "reshape" and [ast.unparse(a) for a in srcx.args] == [
                     f"{x}.shape"]:
                 srcx = srcx.func.value
+            elif isinstance(srcx, ast.Call) and ast.unparse(
+                    srcx.func) == "np.reshape" and len(
+                    srcx.args) == 2 and ast.unparse(
+                    srcx.args[1]) == f"{x}.shape":
+                srcx = inline_locals(fi.node, srcx.args[0], keep={x})
+            # the parsed text: the parameter or a local cut out of it
+            derived = {txt}
+            for n_ in ast.walk(fi.node):
+                if isinstance(n_, (ast.Assign, ast.AnnAssign)) and getattr(
+                        n_, "value", None) is not None:
+                    tg_ = n_.targets[0] if isinstance(n_, ast.Assign) \
+                        else n_.target
+                    if isinstance(tg_, ast.Name) and any(
+                            isinstance(y_, ast.Name) and y_.id in derived
+                            for y_ in ast.walk(n_.value)) and isinstance(
+                            n_.value, (ast.Subscript, ast.Call, ast.Name)):
+                        derived.add(tg_.id)
             if isinstance(srcx, ast.Call) and ast.unparse(
                     srcx.func) == "np.fromstring" and srcx.args and \
-                    ast.unparse(srcx.args[0]) == txt:
+                    ast.unparse(srcx.args[0]) in derived:
                 kw = {k.arg: ast.unparse(k.value) for k in srcx.keywords}
                 ok = kw.get("dtype") == f"{x}.dtype" and kw.get(
                     "sep", "").endswith("SEPARATOR")
